@@ -11,6 +11,7 @@ mod actions;
 mod c20;
 mod c21;
 mod c33;
+mod glvchk;
 mod gtchk;
 mod lpcomp;
 mod oraclechk;
@@ -61,6 +62,7 @@ fn main() {
         "C39" => lpcomp::run_c39(&cli),
         "C40" => c40::run(&cli),
         "C44" => c44::run(&cli),
+        "C45" => glvchk::run(&cli),
         "C36" => tlworld::run_c36(&cli),
         other => {
             eprintln!("unknown property {other}");
